@@ -107,3 +107,27 @@ def observe(payload):
         except Exception as e:
             res.append({'crash': exn_name(e) + ': ' + str(e)[:300]})
     return {'cases': res}
+
+
+def warm_up(obj, nodes, k=0):
+    """the graph / ontology has been used before: module-level helpers with both include_source values (in both orders),
+    predicates that stop their traversal early, traversal iterators abandoned after one item.  State kept between calls
+    (caches, shared buffers) then shows in whatever is observed afterwards.  Nothing here may change any answer."""
+    import hpotk.algorithm as alg
+    g = obj.graph if hasattr(obj, 'graph') else obj
+    nodes = list(nodes)
+    for j, t in enumerate(nodes):
+        for inc in ((False, True) if (j + k) % 2 == 0 else (True, False)):
+            try:
+                set(alg.get_ancestors(obj, t, include_source=inc))
+                set(alg.get_descendants(obj, t, include_source=inc))
+                next(iter(g.get_ancestors(t, inc)), None)
+                next(iter(g.get_descendants(t, inc)), None)
+            except Exception:
+                pass
+        for u in nodes[:4]:
+            try:
+                g.is_descendant_of(t, u)
+                g.is_ancestor_of(t, u)
+            except Exception:
+                pass
